@@ -162,6 +162,7 @@ class Unit:
 
 
 DEBUG_POOL = bool(os.environ.get("SYMX_DEBUG_POOL"))
+CHECK_DEADLINE_S = None  # wall budget of the exploration of one check (set by check_property for the quick tier)
 SLICE_S = 5  # a task that has run this long hands the unexplored rest of its subtree back to the pool
 TASK_BUDGET_S = 1500  # wall budget of one exploration task; check_property lowers it for the quick tier
 _UNITS: list[Unit] = []
@@ -246,11 +247,19 @@ def explore_units(units, seed=0, nproc=None, budget_s=None):
             if DEBUG_POOL:
                 print("submit unit=%d prefixes=%d pending=%d" % (t[0], _b.len(t[1]), pending[0]), file=sys.stderr, flush=True)
             pool.apply_async(_explore_task, (t,), callback=done.put, error_callback=done.put)
+        t_start = time.time()
+        late = [False]
         for t in tasks:
             submit(t)
         while pending[0]:
             out = done.get()
             pending[0] -= 1
+            if CHECK_DEADLINE_S is not None and not late[0] and time.time() - t_start > CHECK_DEADLINE_S:
+                # the check as a whole has used its wall budget (a change can make many path trees explode at once): nothing
+                # more is started; what has been found so far is still replayed and reported, the rest is inconclusive
+                late[0] = True
+                for i, a in enumerate(agg):
+                    dead.add(i)
             if DEBUG_POOL:
                 print("result %s pending=%d" % (("unit=%d paths=%d left=%d err=%s" % (out["unit"], out["paths"], _b.len(out["left"]), bool(out["error"]))) if isinstance(out, dict) else repr(out), pending[0]), file=sys.stderr, flush=True)
             if isinstance(out, BaseException):
@@ -268,6 +277,8 @@ def explore_units(units, seed=0, nproc=None, budget_s=None):
             if ui not in dead:
                 for t in round2:
                     submit(t)
+            elif late[0] and round2 and not any("wall budget of the check" in e for e in a["errors"]):
+                a["errors"].append("Unsupported: wall budget of the check (%d s) exhausted before this unit was fully explored" % CHECK_DEADLINE_S)
             del round2[:]
     return agg
 
@@ -392,6 +403,8 @@ def check_property(prop, units, tier, seed, *, explanation, assumptions, stubs=(
                    extra_checks=(), design_ref="", diff_sample=40):
     """explore all units, replay candidates, apply known findings, write evidence, return exit code"""
     global TASK_BUDGET_S
+    global CHECK_DEADLINE_S
+    CHECK_DEADLINE_S = 420 if tier == "quick" else None
     TASK_BUDGET_S = 150 if tier == "quick" else 1800  # x nproc CPU-seconds per unit: a quick check ends within minutes even when a change makes the path tree explode
     t0 = time.time()
     out = Outcome()
@@ -471,13 +484,16 @@ def check_property(prop, units, tier, seed, *, explanation, assumptions, stubs=(
             out.violations.append({"unit": u.name, "label": lab, "inputs": enc_inputs(inp), "replay": write_replay(prop, u.name, lab, inp, what), "what": what})
         # candidates -> replay on the real library
         done = set()
+        labels_done = {}
         for label, inp in cands:
             if inp is None:
                 continue
             key = (label, json.dumps(enc_inputs(inp), sort_keys=True))
-            if (label in done and _b.len(done) > 50) or key in done:
+            # every distinct label is replayed (a few inputs each); beyond 60 replays per unit only labels not seen yet
+            if key in done or labels_done.get(label, 0) >= 5 or (_b.len(done) > 60 and label in labels_done):
                 continue
             done.add(key)
+            labels_done[label] = labels_done.get(label, 0) + 1
             if u.real is None:
                 out.harness_errors.append("%s: candidate violation %r cannot be replayed (no concrete harness): %r"
                                           % (u.name, label, enc_inputs(inp)))
